@@ -22,7 +22,7 @@ MANIFEST = {
     'note': 'Trusted: Lean kernel; Model/New.lean tied by correspondence; reference predicates.',
 }
 
-ALPHABET = [b'7', b'A', b'$', b'k', 'é'.encode(), '点'.encode(), '丂'.encode(), '\U0001F600'.encode(), b'\xe3', b'\x81', b'\x00', b'\xff']
+ALPHABET = [b'7', b'A', b'$', b'k', 'é'.encode(), '°'.encode(), 'П'.encode(), '点'.encode(), '丂'.encode(), '\U0001F600'.encode(), b'\xe3', b'\x81', b'\x00', b'\xff']
 LEVELS = {'qr': [0, 1, 2, 3], 'mq': [0, 1, 2, 3], 'rm': [0, 1]}
 
 
